@@ -12,24 +12,24 @@ variable {α : Type} {isna : α → Bool}
 /-- the cells of a block in fill direction -/
 def orient (fwd : Bool) (l : List α) : List α := if fwd then l else l.reverse
 
-theorem stepDir_shortcut (fwd : Bool) (limit : Nat) (fixed : Bool) (st : Option (Bridge α)) (b : RBlock α)
+theorem stepDir_shortcut (fwd : Bool) (limit : Nat) (st : Option (Bridge α)) (b : RBlock α)
     (h : (b.others || (b.cells.map isna).any id) = false) :
-    stepDir isna fwd limit fixed st b =
+    stepDir isna fwd limit st b =
       (b.cells, some ⟨edgeCell fwd b.cells b.hd, isna (edgeCell fwd b.cells b.hd), 0⟩) := by
   unfold stepDir
   simp only [h, Bool.not_false, if_true]
 
-theorem stepDir_oneD (fwd : Bool) (limit : Nat) (fixed : Bool) (st : Option (Bridge α)) (b : RBlock α)
+theorem stepDir_oneD (fwd : Bool) (limit : Nat) (st : Option (Bridge α)) (b : RBlock α)
     (h : (b.others || (b.cells.map isna).any id) = true) (h1 : b.oneD = true ∧ b.tl = []) :
-    stepDir isna fwd limit fixed st b = stepOneD isna limit st b.hd := by
+    stepDir isna fwd limit st b = stepOneD isna limit st b.hd := by
   unfold stepDir
   simp only [h, Bool.not_true, Bool.false_eq_true, if_false, h1, and_self, if_true]
 
-theorem stepDir_twoD (fwd : Bool) (limit : Nat) (fixed : Bool) (st : Option (Bridge α)) (b : RBlock α)
+theorem stepDir_twoD (fwd : Bool) (limit : Nat) (st : Option (Bridge α)) (b : RBlock α)
     (h : (b.others || (b.cells.map isna).any id) = true) (h1 : ¬ (b.oneD = true ∧ b.tl = [])) :
-    stepDir isna fwd limit fixed st b =
+    stepDir isna fwd limit st b =
       let r1 := bridgeFill isna fwd limit st b.cells b.hd
-      let r2 := innerFill isna fwd limit fixed b.cells r1.1 r1.2
+      let r2 := innerFill isna fwd limit b.cells r1.1 r1.2
       let bv' := edgeCell fwd r2.1 b.hd
       (r2.1, some ⟨bv', isna bv',
         if (!isna (edgeCell fwd b.cells b.hd) || isna bv') = true then 0 else r2.2⟩) := by
@@ -155,12 +155,11 @@ theorem stepDir_spec_oneD (limit : Nat) (st : Option (Bridge α)) (x : α)
       exact ⟨by first | rfl | trivial, inv_open limit x _ 0 0 hx' (by first | rfl | exact hx') (fun _ => rfl)⟩
 
 /-- 2-D branch -/
-theorem stepDir_spec_twoD (fwd : Bool) (limit : Nat) (fixed : Bool)
-    (hfix : fwd = true ∨ fixed = true ∨ limit = 0)
+theorem stepDir_spec_twoD (fwd : Bool) (limit : Nat)
     (st : Option (Bridge α)) (b : RBlock α) (last : Option α) (cnt : Nat)
     (hinv : Inv isna limit st last cnt) :
     let r1 := bridgeFill isna fwd limit st b.cells b.hd
-    let r2 := innerFill isna fwd limit fixed b.cells r1.1 r1.2
+    let r2 := innerFill isna fwd limit b.cells r1.1 r1.2
     let bv' := edgeCell fwd r2.1 b.hd
     orient fwd r2.1 = ffill isna limit (orient fwd b.cells) last cnt ∧
     Inv isna limit (some ⟨bv', isna bv',
@@ -170,8 +169,8 @@ theorem stepDir_spec_twoD (fwd : Bool) (limit : Nat) (fixed : Bool)
   have hne : b.cells ≠ [] := by simp [RBlock.cells]
   have hcells : orient fwd r2.1 = ffill isna limit (orient fwd b.cells) last cnt := by
     cases fwd with
-    | true => exact twoD_cells_fwd limit fixed st b.cells b.hd last cnt hinv
-    | false => exact twoD_cells_bwd limit fixed st b.cells b.hd last cnt hinv
+    | true => exact twoD_cells_fwd limit st b.cells b.hd last cnt hinv
+    | false => exact twoD_cells_bwd limit st b.cells b.hd last cnt hinv
   refine ⟨hcells, ?_⟩
   have hyne : orient fwd b.cells ≠ [] := orient_ne_nil fwd _ hne
   have hys := (List.dropLast_concat_getLast hyne).symm
@@ -215,41 +214,36 @@ theorem stepDir_spec_twoD (fwd : Bool) (limit : Nat) (fixed : Bool)
         have hz' : isna (b.cells.getLastD b.hd) = true := by
           have : edgeCell true b.cells b.hd = b.cells.getLastD b.hd := by simp [edgeCell]
           rw [← this, hzedge]; exact hz
-        have := twoD_count_fwd limit fixed st b.cells b.hd last cnt hne hinv hz' bv'
+        have := twoD_count_fwd limit st b.cells b.hd last cnt hne hinv hz' bv'
           (by have := e1; rw [← hys] at this; simpa [orient] using this)
           (by have := e2 h0; rw [← hys] at this; simpa [orient] using this) h0
         simpa [orient] using this
       | false =>
-        rcases hfix with h | h | h
-        · cases h
-        · subst h
-          have hz' : isna (b.cells.headD b.hd) = true := by
-            have : edgeCell false b.cells b.hd = b.cells.headD b.hd := by simp [edgeCell]
-            rw [← this, hzedge]; exact hz
-          have := twoD_count_bwd limit st b.cells b.hd last cnt hne hinv hz' bv'
-            (by have := e1; rw [← hys] at this; simpa [orient] using this)
-            (by have := e2 h0; rw [← hys] at this; simpa [orient] using this) h0
-          simpa [orient] using this
-        · exact absurd h h0
+        have hz' : isna (b.cells.headD b.hd) = true := by
+          have : edgeCell false b.cells b.hd = b.cells.headD b.hd := by simp [edgeCell]
+          rw [← this, hzedge]; exact hz
+        have := twoD_count_bwd limit st b.cells b.hd last cnt hne hinv hz' bv'
+          (by have := e1; rw [← hys] at this; simpa [orient] using this)
+          (by have := e2 h0; rw [← hys] at this; simpa [orient] using this) h0
+        simpa [orient] using this
 
 /-- One block of `_fillna_directional_axis_1` (one row), for every layout flag and every state related
     by `Inv`: the output cells are the spec applied with the spec's state, and the invariant is
-    maintained.  `fixed = false` (the code as it is) is covered forward for every limit and backward
+    maintained, in both directions and for every limit (the repaired count, /repo 5a58a46;
     for `limit = 0`. -/
-theorem stepDir_spec (fwd : Bool) (limit : Nat) (fixed : Bool)
-    (hfix : fwd = true ∨ fixed = true ∨ limit = 0)
+theorem stepDir_spec (fwd : Bool) (limit : Nat)
     (st : Option (Bridge α)) (b : RBlock α) (last : Option α) (cnt : Nat)
     (hinv : Inv isna limit st last cnt) :
-    orient fwd (stepDir isna fwd limit fixed st b).1 = ffill isna limit (orient fwd b.cells) last cnt ∧
-    Inv isna limit (stepDir isna fwd limit fixed st b).2
+    orient fwd (stepDir isna fwd limit st b).1 = ffill isna limit (orient fwd b.cells) last cnt ∧
+    Inv isna limit (stepDir isna fwd limit st b).2
       (ffillState isna (orient fwd b.cells) last cnt).1 (ffillState isna (orient fwd b.cells) last cnt).2 := by
   cases h : (b.others || (b.cells.map isna).any id) with
   | false =>
-    rw [stepDir_shortcut fwd limit fixed st b h]
+    rw [stepDir_shortcut fwd limit st b h]
     exact stepDir_spec_shortcut fwd limit b last cnt h
   | true =>
     by_cases h1 : b.oneD = true ∧ b.tl = []
-    · rw [stepDir_oneD fwd limit fixed st b h h1]
+    · rw [stepDir_oneD fwd limit st b h h1]
       have hc : b.cells = [b.hd] := by simp [RBlock.cells, h1.2]
       have ho : orient fwd [b.hd] = [b.hd] := by cases fwd <;> simp [orient]
       have ho' : orient fwd (stepOneD isna limit st b.hd).1 = (stepOneD isna limit st b.hd).1 := by
@@ -262,7 +256,7 @@ theorem stepDir_spec (fwd : Bool) (limit : Nat) (fixed : Bool)
         rw [hy]; cases fwd <;> simp [orient]
       rw [hc, ho, ho']
       exact stepDir_spec_oneD limit st b.hd last cnt hinv
-    · rw [stepDir_twoD fwd limit fixed st b h h1]
-      exact stepDir_spec_twoD fwd limit fixed hfix st b last cnt hinv
+    · rw [stepDir_twoD fwd limit st b h h1]
+      exact stepDir_spec_twoD fwd limit st b last cnt hinv
 
 end SF.NA
